@@ -212,8 +212,13 @@ def stack_effects(  # noqa: D103, C901
             | "KW_NAMES"
         ):
             return StackEffects(0, 0)
-        case "PUSH_NULL" | "MATCH_KEYS" | "BEFORE_WITH" | "COPY":
+        case "PUSH_NULL" | "MATCH_KEYS" | "BEFORE_WITH":
             return StackEffects(0, 1)
+        case "COPY":
+            # COPY(i) reads the i-th stack item and pushes a copy of it (DUP_TOP of 3.10 is COPY(1)):
+            # the copy depends on a value that is already on the stack.
+            assert arg is not None
+            return StackEffects(arg, arg + 1)
         case (
             "PREP_RERAISE_STAR"
             | "POP_EXCEPT"
